@@ -655,3 +655,25 @@ def walk_guarded(fnode: ast.AST):
 
     visit(fnode.body, [])  # type: ignore[attr-defined]
     return out
+
+
+class Remap:
+    """re-report obligations of another property's rule under this property's rule ids"""
+
+    def __init__(self, chk: "Check", mapping: dict, only=None):
+        self._chk, self._map, self._only = chk, mapping, only
+
+    def __getattr__(self, name):
+        return getattr(self._chk, name)
+
+    def ob(self, rule, where, desc, ok, detail="", key="", how=""):
+        if rule not in self._map:
+            return bool(ok)
+        if self._only is not None and not self._only(rule, key, where):
+            return bool(ok)
+        return self._chk.ob(self._map[rule], where, desc, ok, detail, key=f"{rule}|{key}", how=how)
+
+    def floor(self, rule, k):
+        pass
+
+
